@@ -72,3 +72,182 @@ Theorem render_tree_colour_inherit :
 Proof. exact Inherit.render_tree_colour_inherit. Qed.
 Print Assumptions render_tree_colour_inherit.
 
+
+(* ---------- DOM level (Proofs/CascadeDom.v): every cell of an element's computed style - colour, background, display (bool: true = none), white-space, content - is the cascade winner among ALL applicable declarations; the key order; from the DOM chain to the output colour ---------- *)
+From H2T Require Import Base Tagged Wrap Sub Css Dom Render Api CssParse Proofs.CssTotal Proofs.WrapInv Proofs.RenderWidth Proofs.Conserve Proofs.Footnotes Proofs.AnnBalance Proofs.RenderConserve Proofs.OptionRel Proofs.Compose Proofs.RenderTotal Proofs.FragStream Proofs.SimRel Proofs.Prune Proofs.CascadeDom.
+Theorem computed_style_applicable :
+  forall (sd : styledata) (p : list anc) (inl : list styledecl),
+       computed_style sd p inl = fold_left gfeed (applicable sd p inl) cstyle0.
+Proof. exact CascadeDom.computed_style_applicable. Qed.
+Print Assumptions computed_style_applicable.
+
+Theorem in_applicable :
+  forall (sd : styledata) (p : list anc) (inl : list styledecl) (g : gdecl),
+       In g (applicable sd p inl) <->
+       (exists (o : origin) (rules : list ruleset) (r : ruleset) (d : styledecl),
+          (o = OAgent /\ rules = agent_rules sd \/
+           o = OUser /\ rules = user_rules sd \/ o = OAuthor /\ rules = author_rules sd) /\
+          In r rules /\
+          sel_matches (rs_sel r) p = true /\
+          In d (rs_styles r) /\ g = decl_of o (specificity (rs_sel r)) (pseudo_el (rs_sel r)) d) \/
+       (exists d : styledecl, In d inl /\ g = decl_of OAuthor spec_inline None d).
+Proof. exact CascadeDom.in_applicable. Qed.
+Print Assumptions in_applicable.
+
+Theorem rule_applies_iff :
+  forall (s : Selector.sel) (ps : option pseudo) (p : list anc),
+       Selector.wf s ->
+       sel_matches {| comps := Selector.flatten s; pseudo_el := ps |} p = true <-> Selector.matches s p.
+Proof. exact CascadeDom.rule_applies_iff. Qed.
+Print Assumptions rule_applies_iff.
+
+Theorem computed_cell :
+  forall (A : Type) (f : style -> option A) (get : cscore -> withspec A),
+       lens f get ->
+       forall (which : option pseudo) (sd : styledata) (p : list anc) (inl : list styledecl),
+       get (core_at which (computed_style sd p inl)) =
+       fold_left Cascade.feed (proj f which (applicable sd p inl)) ws_default.
+Proof. exact (@CascadeDom.computed_cell). Qed.
+Print Assumptions computed_cell.
+
+Theorem computed_cell_winner :
+  forall (A : Type) (f : style -> option A) (get : cscore -> withspec A),
+       lens f get ->
+       forall (which : option pseudo) (sd : styledata) (p : list anc) (inl : list styledecl),
+       let l := proj f which (applicable sd p inl) in
+       let cell := get (core_at which (computed_style sd p inl)) in
+       l = [] /\ cell = ws_default \/
+       (exists (i : nat) (d : Cascade.cdecl A),
+          nth_error l i = Some d /\ Cascade.is_winner l i /\ cell = CascadeProof.cell_of d).
+Proof. exact (@CascadeDom.computed_cell_winner). Qed.
+Print Assumptions computed_cell_winner.
+
+Theorem c19_dom_cascade :
+  forall (which : option pseudo) (sd : styledata) (p : list anc) (inl : list styledecl),
+       let ap := applicable sd p inl in
+       let c := core_at which (computed_style sd p inl) in
+       cascade_value (proj st_colour which ap) (ws_val (c_colour c)) /\
+       cascade_value (proj st_bg which ap) (ws_val (c_bg c)) /\
+       cascade_value (proj st_display which ap) (ws_val (c_display c)) /\
+       cascade_value (proj st_ws which ap) (ws_val (c_white_space c)) /\
+       cascade_value (proj st_content which ap) (ws_val (c_content c)).
+Proof. exact CascadeDom.c19_dom_cascade. Qed.
+Print Assumptions c19_dom_cascade.
+
+Theorem layer_table :
+  forall (A : Type) (s : spec) (v : A),
+       Cascade.layer
+         {|
+           Cascade.cd_important := false;
+           Cascade.cd_origin := OAgent;
+           Cascade.cd_spec := s;
+           Cascade.cd_val := v
+         |} = 1 /\
+       Cascade.layer
+         {|
+           Cascade.cd_important := false;
+           Cascade.cd_origin := OUser;
+           Cascade.cd_spec := s;
+           Cascade.cd_val := v
+         |} = 2 /\
+       Cascade.layer
+         {|
+           Cascade.cd_important := false;
+           Cascade.cd_origin := OAuthor;
+           Cascade.cd_spec := s;
+           Cascade.cd_val := v
+         |} = 3 /\
+       Cascade.layer
+         {|
+           Cascade.cd_important := true;
+           Cascade.cd_origin := OAuthor;
+           Cascade.cd_spec := s;
+           Cascade.cd_val := v
+         |} = 4 /\
+       Cascade.layer
+         {|
+           Cascade.cd_important := true;
+           Cascade.cd_origin := OUser;
+           Cascade.cd_spec := s;
+           Cascade.cd_val := v
+         |} = 5 /\
+       Cascade.layer
+         {|
+           Cascade.cd_important := true;
+           Cascade.cd_origin := OAgent;
+           Cascade.cd_spec := s;
+           Cascade.cd_val := v
+         |} = 6.
+Proof. exact CascadeDom.layer_table. Qed.
+Print Assumptions layer_table.
+
+Theorem specificity_counts :
+  forall s : selector,
+       specificity s =
+       {|
+         sp_inline := false;
+         sp_id := cnt is_hash (comps s);
+         sp_class := cnt is_cls (comps s);
+         sp_typ := cnt is_elt (comps s)
+       |}.
+Proof. exact CascadeDom.specificity_counts. Qed.
+Print Assumptions specificity_counts.
+
+Theorem applicable_keys :
+  forall (sd : styledata) (p : list anc) (inl : list styledecl) (g : gdecl),
+       In g (applicable sd p inl) ->
+       (g_origin g = OAgent \/ g_origin g = OUser \/ g_origin g = OAuthor) /\
+       (sp_inline (g_spec g) = true -> g_origin g = OAuthor /\ g_spec g = spec_inline /\ g_pseudo g = None).
+Proof. exact CascadeDom.applicable_keys. Qed.
+Print Assumptions applicable_keys.
+
+Theorem process_elem_holds :
+  forall (sd : styledata) (udc : bool) (inl : list (text * text) -> res (list styledecl)) 
+         (html : bool) (name : text) (attrs : list (text * text)) (kids : list node) 
+         (p : list anc) (idx : Z) (r : rnode),
+       process sd udc inl (NElem html name attrs kids) p idx = Ok (Some r) ->
+       let me := {| a_name := name; a_attrs := attrs; a_idx := idx |} :: p in
+       (exists f : text, r = rn_new (IFragStart f)) \/
+       holds (cs_of sd udc inl me) r \/
+       names s_pre_names name = true /\ holds (pre_style (cs_of sd udc inl me)) r.
+Proof. exact CascadeDom.process_elem_holds. Qed.
+Print Assumptions process_elem_holds.
+
+Theorem dom_colour_inherit :
+  forall (sd : styledata) (udc : bool) (inl : list (text * text) -> res (list styledecl)) 
+         (d : deco) (mw : N) (o : ropts) (width : N) (doc : list node) (tree : rnode) 
+         (s : subr),
+       Inherit.deco_plain d ->
+       dom_to_render_tree sd udc inl doc = Ok tree ->
+       render_tree d mw o width tree = Ok s -> sub_Q (dom_tag_col sd udc inl d doc) s.
+Proof. exact CascadeDom.dom_colour_inherit. Qed.
+Print Assumptions dom_colour_inherit.
+
+Theorem to_render_tree_colour :
+  forall (c : config) (doc : list node) (tree : rnode) (d : deco) (mw : N) (o : ropts) 
+         (width : N) (s : subr),
+       Inherit.deco_plain d ->
+       to_render_tree inline_styles doc_rules c doc = Ok tree ->
+       render_tree d mw o width tree = Ok s ->
+       exists sd : styledata,
+         effective_sd doc_rules c doc = Ok sd /\
+         sub_Q (dom_tag_col sd (c_use_doc_css c) inline_styles d doc) s.
+Proof. exact CascadeDom.to_render_tree_colour. Qed.
+Print Assumptions to_render_tree_colour.
+
+Theorem elem_fg_winner :
+  forall (sd : styledata) (udc : bool) (inl : list (text * text) -> res (list styledecl)) 
+         (d : deco) (me : list anc),
+       d_colours d = true ->
+       cascade_value (proj st_colour None (elem_decls sd udc inl me)) (elem_fg sd udc inl d me).
+Proof. exact CascadeDom.elem_fg_winner. Qed.
+Print Assumptions elem_fg_winner.
+
+Theorem elem_bg_winner :
+  forall (sd : styledata) (udc : bool) (inl : list (text * text) -> res (list styledecl)) 
+         (d : deco) (me : list anc),
+       d_colours d = true ->
+       cascade_value (proj st_bg None (elem_decls sd udc inl me)) (elem_bg sd udc inl d me).
+Proof. exact CascadeDom.elem_bg_winner. Qed.
+Print Assumptions elem_bg_winner.
+
